@@ -1,0 +1,92 @@
+//! Verification hooks (only built with the `verif-hooks` feature).
+//!
+//! Purely additive: exposes a plain copy of the decoder's complete internal
+//! state and a way to duplicate a decoder, so that an external explorer can
+//! deduplicate states exactly and branch from a state without re-running the
+//! history that led to it. Nothing here is used by the library itself.
+
+use super::{DecodeState, Decoder, NonOwningDecoder};
+use crate::util::Buffer;
+
+/// Plain copy of every field of a [`Decoder`].
+#[derive(Debug, Clone, PartialEq, Eq, Hash)]
+pub struct DecoderSnapshot {
+    /// 0 = LookingForMessageStart, 1 = ParsingNormal, 2 = ParsingEscChars,
+    /// 3 = ParsingEscPayload, 4 = Done
+    pub tag: u8,
+    /// `num_discarded_bytes` (tag 0), else 0
+    pub num_discarded_bytes: u64,
+    /// `num_init_seq_bytes` (tag 0), `n` (tag 2), `step` (tag 3), else 0
+    pub n: u8,
+    /// escape payload (tag 3), else zeros
+    pub payload: [u8; 4],
+    /// `raw_msg_len`
+    pub raw_msg_len: usize,
+    /// the running CRC as `digest.clone().finalize()` (a bijection of the register)
+    pub crc: u16,
+    /// `zero_cache`
+    pub zero_cache: u8,
+    /// contents of the output buffer
+    pub buf: alloc::vec::Vec<u8>,
+}
+
+impl<B: Buffer> Decoder<B> {
+    /// Returns a copy of the complete internal state.
+    pub fn verif_snapshot(&self) -> DecoderSnapshot {
+        let d = &self.decoder;
+        let (tag, num_discarded_bytes, n, payload) = match d.state {
+            DecodeState::LookingForMessageStart {
+                num_discarded_bytes,
+                num_init_seq_bytes,
+            } => (0, num_discarded_bytes as u64, num_init_seq_bytes, [0; 4]),
+            DecodeState::ParsingNormal => (1, 0, 0, [0; 4]),
+            DecodeState::ParsingEscChars(n) => (2, 0, n, [0; 4]),
+            DecodeState::ParsingEscPayload { step, payload } => (3, 0, step, payload),
+            DecodeState::Done => (4, 0, 0, [0; 4]),
+        };
+        DecoderSnapshot {
+            tag,
+            num_discarded_bytes,
+            n,
+            payload,
+            raw_msg_len: d.raw_msg_len,
+            crc: d.crc.clone().finalize(),
+            zero_cache: d.zero_cache,
+            buf: self.buf[..].to_vec(),
+        }
+    }
+
+    /// Returns an independent decoder in exactly the same state.
+    ///
+    /// Returns `None` if the buffer contents cannot be copied into a fresh buffer
+    /// (which cannot happen for buffers of the same type and capacity).
+    pub fn verif_clone(&self) -> Option<Self> {
+        let mut buf = B::default();
+        buf.extend_from_slice(&self.buf[..]).ok()?;
+        let d = &self.decoder;
+        let state = match d.state {
+            DecodeState::LookingForMessageStart {
+                num_discarded_bytes,
+                num_init_seq_bytes,
+            } => DecodeState::LookingForMessageStart {
+                num_discarded_bytes,
+                num_init_seq_bytes,
+            },
+            DecodeState::ParsingNormal => DecodeState::ParsingNormal,
+            DecodeState::ParsingEscChars(n) => DecodeState::ParsingEscChars(n),
+            DecodeState::ParsingEscPayload { step, payload } => {
+                DecodeState::ParsingEscPayload { step, payload }
+            }
+            DecodeState::Done => DecodeState::Done,
+        };
+        Some(Decoder {
+            buf,
+            decoder: NonOwningDecoder {
+                raw_msg_len: d.raw_msg_len,
+                crc: d.crc.clone(),
+                state,
+                zero_cache: d.zero_cache,
+            },
+        })
+    }
+}
